@@ -107,7 +107,7 @@ class SMTwist(SMUserList):
         if len(self) == 1:
             return base.iszerovec(self.w)
         else:
-            return [base.iszerovec(x.w) for x in self.data]
+            return [base.iszerovec(x.w) for x in self]
 
     @property
     def isrevolute(self):
@@ -133,7 +133,7 @@ class SMTwist(SMUserList):
         if len(self) == 1:
             return base.iszerovec(self.v)
         else:
-            return [base.iszerovec(x.v) for x in self.data]
+            return [base.iszerovec(x.v) for x in self]
 
 
     @property
